@@ -309,7 +309,7 @@ fn main() {
             "payload_sequence_band": {
                 "alphabet": worlds::PAYLOAD_ALPHABET,
                 "quick": "all 64 sequences of length 3 x splits {1,2} params (rest = result / result tuple) x {interface imported+exported, world-level imported+exported}, sync; the 64 length-4 sequences x y x z with 2 params at interface level; variants default and --async=all",
-                "thorough": "all 64 length-3 sequences x every split x {IfaceBoth, WorldBoth, resource method imported, resource method exported} x sync/async; all 256 length-4 sequences x every split at interface level",
+                "thorough": "all 64 length-3 sequences x every split x {IfaceBoth, WorldBoth} x sync/async and x {resource method imported, resource method exported} sync; all 256 length-4 sequences x splits {0,2,4} params at interface level",
                 "worlds": all_worlds.iter().filter(|w| w.id.starts_with("seq/")).count(),
             },
             "resource_member_sets": worlds::RES_MEMBERS.iter().map(|s| s.0).collect::<Vec<_>>(),
